@@ -789,6 +789,14 @@ const char *UtilContext::get_hex(const char *token, uint32_t *num)
     s++;
   }
 
+  // A hex number needs at least one digit ("-h", "0x"): returning the same
+  // pointer would make the callers that loop over numbers spin forever.
+  if (s == 0)
+  {
+    printf("Illegal number '%s'\n", token);
+    return nullptr;
+  }
+
   *num = n;
 
   if (token[s] != '-' && token[s] != 0) s++;
